@@ -2408,6 +2408,112 @@ func (s *netSim) staleLockScenario() bool {
 	return true
 }
 
+// commitSkipScenario: four validators of equal power, one Byzantine (B), correct proposers P1, P2 in
+// rounds 1 and 2, X the third correct validator; X never receives P1's proposal.
+//  round 1: P1, P2 and B prevote P1's block A; P1 and P2 precommit A; B shows a precommit for nil to
+//           P1 and P2 (they go on to round 2) and a precommit for A to X, which has now +2/3
+//           precommits for A: X enters the commit step and waits for the block.
+//  round 2: P2 re-proposes A; P1, P2 prevote A, B prevotes nil.  X receives these three prevotes
+//           (+2/3 any for a later round) ... and leaves the commit step for round 2.
+//  B now shows its precommit for A to P1 and P2 as well: they commit height 1 with exactly the
+//  precommits X already has.  From then on the network is synchronous and B is silent.
+func (s *netSim) commitSkipScenario() bool {
+	ht := s.hs[1]
+	cor := s.correct()
+	if len(cor) != 3 || ht == nil {
+		return false
+	}
+	b := s.byzIDs(ht)[0]
+	p1, p2 := s.nodes[s.proposerOf(ht, 1)], s.nodes[s.proposerOf(ht, 2)]
+	var x *netNode
+	for _, nd := range cor {
+		if nd.id != p1.id && nd.id != p2.id {
+			x = nd
+		}
+	}
+	if x == nil || p1.byz || p2.byz || p1.id == p2.id {
+		s.o.Count("scenario:commit-skip:setup-not-applicable")
+		return false
+	}
+	notReached := func(why string) bool {
+		s.o.Count("scenario:commit-skip:prefix-not-reached:" + why)
+		return false
+	}
+	fireAll := func(l ...*netNode) {
+		for _, nd := range l {
+			if nd.ticker.fire() {
+				s.handleTock(nd, len(nd.ticker.tocks)-1)
+			}
+		}
+	}
+	byzTo := func(v *types.Vote, l ...*netNode) {
+		if v == nil {
+			return
+		}
+		m := s.archiveMsg(&netMsg{h: 1, kind: 'V', vote: v, from: b})
+		for _, nd := range l {
+			s.deliver(nd, m, fmt.Sprintf("byz%d", b))
+		}
+	}
+	votesTo := func(nd *netNode, typ kproto.SignedMsgType, round uint32) {
+		for _, m := range append([]*netMsg{}, ht.archive...) {
+			if m.kind == 'V' && m.vote.Type == typ && m.vote.Round == round && m.from != nd.id {
+				s.deliver(nd, m, fmt.Sprintf("n%d", m.from))
+			}
+		}
+	}
+	s.hold = func(m *netMsg, to int) bool { return to == x.id || m.from == x.id }
+	fireAll(cor...) // NewHeight -> round 1, P1 proposes A
+	s.flush()
+	if p2.cs.ProposalBlock == nil || p1.cs.ProposalBlock == nil {
+		return notReached("round1-proposal")
+	}
+	a := types.BlockID{Hash: p1.cs.ProposalBlock.Hash(), PartsHeader: p1.cs.ProposalBlockParts.Header()}
+	byzTo(s.byzVote(b, 1, kproto.PrevoteType, 1, a), p1, p2) // polka for A at P1, P2
+	s.flush()
+	if p1.cs.LockedRound != 1 || p2.cs.LockedRound != 1 {
+		return notReached("round1-lock")
+	}
+	byzTo(s.byzVote(b, 1, kproto.PrecommitType, 1, types.BlockID{}), p1, p2) // +2/3 any precommits
+	s.flush()
+	fireAll(p1, p2) // PrecommitWait -> round 2, P2 re-proposes A
+	s.flush()
+	if p1.cs.Round != 2 || p2.cs.Round != 2 || p1.cs.Step < cstypes.RoundStepPrevote || p2.cs.Step < cstypes.RoundStepPrevote {
+		return notReached("round2-prevotes")
+	}
+	// X: +2/3 precommits for A in round 1 (P1, P2, B)
+	votesTo(x, kproto.PrecommitType, 1) // P1:A, P2:A, B:nil (B's nil precommit is the one X gets first)
+	if x.cs.Step == cstypes.RoundStepCommit {
+		return notReached("x-commit-too-early")
+	}
+	// the conflicting precommit of B for A needs a +2/3 claim to be counted (as from a peer's VoteSetMaj23)
+	s.setMaj23(x, p1.id, 1, kproto.PrecommitType, a)
+	pcA := s.byzVote(b, 1, kproto.PrecommitType, 1, a)
+	byzTo(pcA, x)
+	if x.cs.Step != cstypes.RoundStepCommit || x.cs.CommitRound != 1 {
+		return notReached(fmt.Sprintf("x-not-in-commit-step-%d", x.cs.Step))
+	}
+	// X: +2/3 any prevotes of round 2
+	if v := s.byzVote(b, 1, kproto.PrevoteType, 2, types.BlockID{}); v != nil {
+		s.archiveMsg(&netMsg{h: 1, kind: 'V', vote: v, from: b})
+	}
+	votesTo(x, kproto.PrevoteType, 2)
+	if x.cs.Round != 2 || x.cs.Step == cstypes.RoundStepCommit {
+		return notReached(fmt.Sprintf("x-still-round-%d-step-%d", x.cs.Round, x.cs.Step))
+	}
+	// P1, P2 commit height 1 in round 1 with {P1, P2, B}
+	for _, nd := range []*netNode{p1, p2} {
+		s.setMaj23(nd, x.id, 1, kproto.PrecommitType, a)
+	}
+	byzTo(pcA, p1, p2)
+	if p1.cs.Height != 2 || p2.cs.Height != 2 {
+		return notReached("p-not-committed")
+	}
+	s.hold = nil
+	s.o.Mark("scenario-commit-skip-prefix-reached")
+	return true
+}
+
 // ---------------------------------------------------------------------------------------------
 // one run
 
@@ -2432,6 +2538,10 @@ func netRun(o *netOut, r *netRand, idx int, mode string) {
 	}
 	if mode == "C04" && idx%10 == 8 {
 		s.scenario = "stale-lock"
+		n = 4
+	}
+	if mode == "C04" && idx%10 == 7 {
+		s.scenario = "commit-skip"
 		n = 4
 	}
 	s.n = n
@@ -2590,6 +2700,10 @@ func netRun(o *netOut, r *netRand, idx int, mode string) {
 	if s.scenario == "stale-lock" {
 		ok = s.staleLockScenario() && s.synchronous(1)
 		o.Count("scenario:stale-lock")
+	}
+	if s.scenario == "commit-skip" {
+		ok = s.commitSkipScenario() && s.synchronous(1)
+		o.Count("scenario:commit-skip")
 	}
 	for T := uint64(1); T <= uint64(s.heights) && ok && s.scenario == ""; T++ {
 		budget := 0
